@@ -812,10 +812,11 @@ def _desugar_factors_with_weights(design: List[Factor],
         for f in weighted:
             # Adds to `replacements`:
             cast(SimpleFactor, f).desugar_weights(replacements)
-        for f in design:
-            if isinstance(f, DerivedFactor):
-                # Uses `replacements`:
-                f.desugar_for_weights(replacements)
+        # A derived factor can read another derived factor that is listed after it in the
+        # design, so rewrite them in dependency order
+        for f in sorted([f for f in design if isinstance(f, DerivedFactor)], key=lambda f: f._get_depth()):
+            # Uses `replacements`:
+            f.desugar_for_weights(replacements)
         # A rewritten derived factor is its own pair of replacements, so it must
         # be listed only once in the new design.
         new_design = cast(List[Factor], [])
